@@ -33,6 +33,16 @@ Proof.
   repeat (apply pg_cons; [vm_compute; discriminate|]). apply pg_nil.
 Qed.
 
+(** What the property's "each job created ends done, cached or failed" does NOT get from the implementation: the
+    event loop stops as soon as the root has its outcome (run raises at the first failure that reaches the root), and
+    the calls still in flight are never settled.  In the machine: the root is failed, a created sibling is still
+    running (the real Scheduler leaves its Job row RUNNING; registered known finding). *)
+Example C09_fail_fast_leaves_unsettled_refuted :
+  let s := SList 0 [SRaise 1; SLeaf 2] in
+  let n := run s [OStart []; OFinish []; OStart [1]; OStart [0]; OFinish [0]] in
+  result n = Some (Ko 1%Z) /\ map nphase (nkids n) = [PDone (Ko 1%Z); PRun].
+Proof. vm_compute. split; reflexivity. Qed.
+
 Print Assumptions C09_tree_steps_bounded.
 Print Assumptions C09_tree_step_decreases.
 Print Assumptions C09_tree_quiescent_settled.
